@@ -157,6 +157,7 @@ CHECKS = {
     'C05': sys_property('C05'),
     'C06': sys_property('C06', also_loop=True),
     'C08': sys_property('C08'),
+    'C09': sys_property('C09'),
     'C10': sys_property('C10'),
     'C16': sys_property('C16'),
     'C17': sys_property('C17'),
